@@ -1,6 +1,8 @@
-(* C16: agg_fold_spec -- for every aggregate function and EVERY list of argument values outside the
-   recorded classes, folding AggregateState::update over the values and finalizing yields exactly
-   the reference aggregate (Model/SqlSpecAgg.v agg_vals).  Sums of doubles are in Proof/AggFloat.v. *)
+(* C16: agg_fold_spec -- for every aggregate function and EVERY list of argument values, folding
+   AggregateState::update_value over the values and finalizing yields exactly the reference aggregate
+   (Model/SqlSpecAgg.v agg_vals): NULLs are skipped by COUNT(e), SUM / AVG / MIN / MAX of no value are
+   NULL, MIN / MAX work on integers, doubles and text; where the reference demands an error (an integer
+   SUM beyond i64) the fold ends in an error.  Sums of doubles are in Proof/AggFloat.v. *)
 From Coq Require Import ZArith List Bool Lia ZifyBool.
 From TV Require Import Model.SqlSpecAgg Model.AggImpl Model.AggClass Proof.AggFold.
 Import ListNotations.
@@ -41,61 +43,61 @@ Proof.
   apply i64_ok_iff in P. apply i64_ok_iff in N. unfold in64, pos_sum, neg_sum. lia.
 Qed.
 
-(* the kinds a MIN / MAX argument can have once text is excluded *)
-Lemma one_kind_cases : forall vs, one_kind vs = true -> existsb is_textual vs = false ->
-  (exists zs, ints_of vs = Some zs) \/ (exists fs, floats_of vs = Some fs /\ forallb f_okn fs = true) \/ vs = [].
+(* the values update_value sees: COUNT( * ) sees a non-NULL constant on every row *)
+Definition fold_input (f : aggfn) (vs : list value) : list (option value) :=
+  match f with
+  | FCountStar => map (fun _ => Some (VInt 1)) vs
+  | _ => map Some vs
+  end.
+
+Lemma one_kind_cases : forall vs, one_kind vs = true ->
+  (exists zs, ints_of vs = Some zs) \/ (exists fs, floats_of vs = Some fs /\ forallb f_okn fs = true) \/
+  (exists ts, texts_of vs = Some ts).
 Proof.
-  intros vs K T. unfold one_kind in K.
+  intros vs K. unfold one_kind in K.
   destruct (ints_of vs) as [zs|] eqn:I; [left; eauto|].
   destruct (floats_of vs) as [fs|] eqn:F; [right; left; exists fs; split; auto|].
-  destruct (texts_of vs) as [ts|] eqn:X; [|discriminate].
-  destruct vs as [|v t]; [right; right; reflexivity|].
-  cbn [texts_of] in X. destruct v; try discriminate.
+  destruct (texts_of vs) as [ts|] eqn:X; [right; right; eauto|discriminate].
 Qed.
-
-Lemma textual_nonnull : forall vs, existsb is_textual vs = false -> existsb is_textual (nonnull vs) = false.
-Proof.
-  intros vs H. destruct (existsb is_textual (nonnull vs)) eqn:E; [|reflexivity].
-  apply existsb_exists in E as [v [I T]]. apply nonnull_in in I.
-  assert (existsb is_textual vs = true) by (apply existsb_exists; eauto). congruence.
-Qed.
-
-Lemma nonnull_idem vs : nonnull (nonnull vs) = nonnull vs.
-Proof.
-  unfold nonnull. induction vs as [|v t IH]; [reflexivity|]. cbn [filter].
-  destruct (negb (is_null v)) eqn:E; cbn [filter]; [rewrite E|]; now rewrite IH.
-Qed.
+Lemma fold_otmin_some : forall ts c, exists m, fold_left otmin ts (Some c) = Some m.
+Proof. induction ts as [|z t IH]; intros c; cbn [fold_left]; [eauto|]. apply IH. Qed.
+Lemma fold_otmax_some : forall ts c, exists m, fold_left otmax ts (Some c) = Some m.
+Proof. induction ts as [|z t IH]; intros c; cbn [fold_left]; [eauto|]. apply IH. Qed.
 
 Theorem agg_fold_spec : forall f vs v,
-  vals_class f vs = 0 -> int_sums f vs = true ->
+  int_sums f vs = true ->
   agg_vals f vs = AVal v ->
-  exists s, fold_upd (kind_of_fn f) st0 (map Some vs) = SOk s /\ fin (kind_of_fn f) s = v.
+  exists s, fold_upd (kind_of_fn f) st0 (fold_input f vs) = SOk s /\ fin (kind_of_fn f) s = v.
 Proof.
-  intros f vs v C I A. destruct f; cbn [kind_of_fn agg_vals vals_class int_sums] in *.
+  intros f vs v I A. destruct f; cbn [kind_of_fn agg_vals int_sums fold_input] in *.
   - (* COUNT( * ) *)
-    destruct (fold_count (map Some vs) st0) as [s [E N]]. exists s; split; [exact E|].
-    cbn [fin]. rewrite N, zlen_map. cbn [st0 st_count]. injection A as <-. f_equal; lia.
-  - (* COUNT(e), no NULL *)
-    destruct (existsb is_null vs) eqn:N; [discriminate|].
-    destruct (fold_count (map Some vs) st0) as [s [E K]]. exists s; split; [exact E|].
-    cbn [fin]. rewrite K, zlen_map. cbn [st0 st_count]. rewrite (nonnull_all vs N) in A. injection A as <-. f_equal; lia.
-  - (* SUM of integers, some value not NULL *)
-    unfold sum_spec in A. destruct (nonnull vs) as [|v0 nn] eqn:NN; [discriminate|].
-    destruct (ints_of (v0 :: nn)) as [zs|] eqn:Z; [|discriminate].
-    unfold int_sum_res in A. destruct (int_sum_safe zs) eqn:S; [|destruct (i64_ok (zsum zs)); discriminate].
-    injection A as <-. destruct (safe_in64 zs S) as [P Ng].
-    rewrite <- NN in Z.
-    destruct (fold_sum_int vs zs st0 Z in64_0 P Ng) as [s [E [Su [Sf Sc]]]].
-    exists s; split; [exact E|]. cbn [fin]. rewrite Su, Sf. cbn [st0 st_sum st_sumf].
-    destruct (0 + zsum zs =? 0) eqn:Z0; cbn [negb].
-    + replace (f_is_zero 0) with true by reflexivity. cbn [negb]. f_equal; lia.
-    + f_equal; lia.
+    destruct (fold_count_star vs st0) as [s [E N]]. exists s; split; [exact E|].
+    cbn [fin]. rewrite N. cbn [st0 st_count]. injection A as <-. f_equal; lia.
+  - (* COUNT(e): NULLs are skipped *)
+    destruct (fold_count vs st0) as [s [E K]]. exists s; split; [exact E|].
+    cbn [fin]. rewrite K. cbn [st0 st_count]. injection A as <-. f_equal; lia.
+  - (* SUM of integers *)
+    destruct (ints_of (nonnull vs)) as [zs|] eqn:Z; [|discriminate].
+    unfold sum_spec in A. destruct (nonnull vs) as [|v0 nn] eqn:NN.
+    + injection A as <-. cbn in Z. injection Z as <-.
+      assert (Z' : ints_of (nonnull vs) = Some []) by (rewrite NN; reflexivity).
+      destruct (fold_sum_int vs [] st0 Z' in64_0) as [s [E [Su [Sf [Sc Sn]]]]]; [cbn; unfold in64; lia|cbn; unfold in64; lia|].
+      exists s; split; [exact E|]. cbn [fin]. rewrite Sn. reflexivity.
+    + rewrite Z in A. unfold int_sum_res in A. destruct (int_sum_safe zs) eqn:S; [|destruct (i64_ok (zsum zs)); discriminate].
+      injection A as <-. destruct (safe_in64 zs S) as [P Ng].
+      assert (Zne : zs <> []) by (intro Hz; subst zs; apply ints_of_map in Z; discriminate).
+      rewrite <- NN in Z.
+      destruct (fold_sum_int vs zs st0 Z in64_0 P Ng) as [s [E [Su [Sf [Sc Sn]]]]].
+      exists s; split; [exact E|]. cbn [fin]. rewrite Su, Sf, Sn. cbn [st0 st_sum st_sumf st_seen orb].
+      destruct zs as [|z0 zt]; [congruence|]. cbn [negb].
+      destruct (0 + zsum (z0 :: zt) =? 0) eqn:Z0; cbn [negb].
+      * replace (f_is_zero 0) with true by reflexivity. cbn [negb]. f_equal; lia.
+      * f_equal; lia.
   - (* AVG of integers *)
     destruct (ints_of (nonnull vs)) as [zs|] eqn:Z; [|discriminate].
     pose proof (ints_of_map _ _ Z) as NNeq.
     unfold avg_spec in A. destruct (nonnull vs) as [|v0 nn] eqn:NN.
-    + (* no value: NULL *)
-      injection A as <-. cbn in Z. injection Z as <-.
+    + injection A as <-. cbn in Z. injection Z as <-.
       assert (Z' : ints_of (nonnull vs) = Some []) by (rewrite NN; reflexivity).
       destruct (fold_avg_int vs [] st0 Z' in64_0) as [s [E [Su [Sf Sc]]]]; [cbn; unfold in64; lia | cbn; unfold in64; lia|].
       exists s; split; [exact E|]. cbn [fin]. rewrite Sc. reflexivity.
@@ -115,20 +117,18 @@ Proof.
       * replace (0 + zsum zs) with (zsum zs) by lia.
         destruct (f_div (f_of_int (zsum zs)) (f_of_int (zlen zs))); [|discriminate]. injection A as <-. reflexivity.
   - (* MIN *)
-    destruct (existsb is_textual vs) eqn:T; [discriminate|].
     unfold ext_spec in A. destruct (nonnull vs) as [|v0 nn] eqn:NN.
     + injection A as <-.
       assert (Z' : ints_of (nonnull vs) = Some []) by (rewrite NN; reflexivity).
-      destruct (fold_min_int vs [] st0 Z') as [s [E [M F]]]. exists s; split; [exact E|].
-      cbn [fin]. rewrite M, F. reflexivity.
+      destruct (fold_min_int vs [] st0 Z') as [s [E [M [F T]]]]. exists s; split; [exact E|].
+      cbn [fin]. rewrite M, F, T. reflexivity.
     + destruct (one_kind (v0 :: nn)) eqn:K; [|discriminate].
-      pose proof (textual_nonnull vs T) as T'. rewrite NN in T'.
-      destruct (one_kind_cases _ K T') as [[zs Z]|[[fs [F Ok]]|E0]]; [| |discriminate].
+      destruct (one_kind_cases _ K) as [[zs Z]|[[fs [F Ok]]|[ts X]]].
       * pose proof (ints_of_map _ _ Z) as Eq. destruct zs as [|z0 zt]; [discriminate|].
         cbn [map] in Eq. injection Eq as -> ->.
         rewrite extremum_min_int in A. destruct (fold_omin_some zt z0) as [m Hm]. rewrite Hm in A.
         cbn [option_map] in A. injection A as <-.
-        rewrite <- NN in Z. destruct (fold_min_int vs (z0 :: zt) st0 Z) as [s [E [M Fl]]].
+        rewrite <- NN in Z. destruct (fold_min_int vs (z0 :: zt) st0 Z) as [s [E [M [Fl T]]]].
         exists s; split; [exact E|]. cbn [fin]. rewrite M. cbn [st0 st_min_i fold_left].
         change (omin None z0) with (Some z0). rewrite Hm. reflexivity.
       * pose proof (floats_of_map _ _ F) as Eq. destruct fs as [|b0 bt]; [discriminate|].
@@ -138,24 +138,29 @@ Proof.
         cbn [option_map] in A. injection A as <-.
         rewrite <- NN in F.
         assert (Ok' : forallb f_okn (b0 :: bt) = true) by (cbn [forallb]; now rewrite Ok0, Okt).
-        destruct (fold_min_float vs (b0 :: bt) st0 F Ok') as [s [E [M Mi]]].
+        destruct (fold_min_float vs (b0 :: bt) st0 F Ok') as [s [E [M [Mi T]]]].
         exists s; split; [exact E|]. cbn [fin]. rewrite M, Mi. cbn [st0 st_min_i st_min_f fold_left].
         change (ofmin None b0) with (Some b0). rewrite Hm. reflexivity.
+      * pose proof (texts_of_map _ _ X) as Eq. destruct ts as [|t0 tt]; [discriminate|].
+        cbn [map] in Eq. injection Eq as -> ->.
+        rewrite extremum_min_text in A. destruct (fold_otmin_some tt t0) as [m Hm]. rewrite Hm in A.
+        cbn [option_map] in A. injection A as <-.
+        rewrite <- NN in X. destruct (fold_min_text vs (t0 :: tt) st0 X) as [s [E [M [Mi Mf]]]].
+        exists s; split; [exact E|]. cbn [fin]. rewrite M, Mi, Mf. cbn [st0 st_min_i st_min_f st_min_t fold_left].
+        change (otmin None t0) with (Some t0). rewrite Hm. reflexivity.
   - (* MAX *)
-    destruct (existsb is_textual vs) eqn:T; [discriminate|].
     unfold ext_spec in A. destruct (nonnull vs) as [|v0 nn] eqn:NN.
     + injection A as <-.
       assert (Z' : ints_of (nonnull vs) = Some []) by (rewrite NN; reflexivity).
-      destruct (fold_max_int vs [] st0 Z') as [s [E [M F]]]. exists s; split; [exact E|].
-      cbn [fin]. rewrite M, F. reflexivity.
+      destruct (fold_max_int vs [] st0 Z') as [s [E [M [F T]]]]. exists s; split; [exact E|].
+      cbn [fin]. rewrite M, F, T. reflexivity.
     + destruct (one_kind (v0 :: nn)) eqn:K; [|discriminate].
-      pose proof (textual_nonnull vs T) as T'. rewrite NN in T'.
-      destruct (one_kind_cases _ K T') as [[zs Z]|[[fs [F Ok]]|E0]]; [| |discriminate].
+      destruct (one_kind_cases _ K) as [[zs Z]|[[fs [F Ok]]|[ts X]]].
       * pose proof (ints_of_map _ _ Z) as Eq. destruct zs as [|z0 zt]; [discriminate|].
         cbn [map] in Eq. injection Eq as -> ->.
         rewrite extremum_max_int in A. destruct (fold_omax_some zt z0) as [m Hm]. rewrite Hm in A.
         cbn [option_map] in A. injection A as <-.
-        rewrite <- NN in Z. destruct (fold_max_int vs (z0 :: zt) st0 Z) as [s [E [M Fl]]].
+        rewrite <- NN in Z. destruct (fold_max_int vs (z0 :: zt) st0 Z) as [s [E [M [Fl T]]]].
         exists s; split; [exact E|]. cbn [fin]. rewrite M. cbn [st0 st_max_i fold_left].
         change (omax None z0) with (Some z0). rewrite Hm. reflexivity.
       * pose proof (floats_of_map _ _ F) as Eq. destruct fs as [|b0 bt]; [discriminate|].
@@ -165,7 +170,28 @@ Proof.
         cbn [option_map] in A. injection A as <-.
         rewrite <- NN in F.
         assert (Ok' : forallb f_okn (b0 :: bt) = true) by (cbn [forallb]; now rewrite Ok0, Okt).
-        destruct (fold_max_float vs (b0 :: bt) st0 F Ok') as [s [E [M Mi]]].
+        destruct (fold_max_float vs (b0 :: bt) st0 F Ok') as [s [E [M [Mi T]]]].
         exists s; split; [exact E|]. cbn [fin]. rewrite M, Mi. cbn [st0 st_max_i st_max_f fold_left].
         change (ofmax None b0) with (Some b0). rewrite Hm. reflexivity.
+      * pose proof (texts_of_map _ _ X) as Eq. destruct ts as [|t0 tt]; [discriminate|].
+        cbn [map] in Eq. injection Eq as -> ->.
+        rewrite extremum_max_text in A. destruct (fold_otmax_some tt t0) as [m Hm]. rewrite Hm in A.
+        cbn [option_map] in A. injection A as <-.
+        rewrite <- NN in X. destruct (fold_max_text vs (t0 :: tt) st0 X) as [s [E [M [Mi Mf]]]].
+        exists s; split; [exact E|]. cbn [fin]. rewrite M, Mi, Mf. cbn [st0 st_max_i st_max_f st_max_t fold_left].
+        change (otmax None t0) with (Some t0). rewrite Hm. reflexivity.
+Qed.
+
+(* where the reference demands an error -- the exact integer SUM does not fit in i64 -- the fold of
+   update_value ends in an error (`integer overflow in SUM`), never in a value or a panic *)
+Theorem agg_fold_error : forall vs,
+  agg_vals FSum vs = AError -> fold_upd KSum st0 (map Some vs) = SErr.
+Proof.
+  intros vs A. cbn [agg_vals] in A. unfold sum_spec in A.
+  destruct (nonnull vs) as [|v0 nn] eqn:NN; [discriminate|].
+  destruct (ints_of (v0 :: nn)) as [zs|] eqn:Z; [|destruct (sum_double (v0 :: nn)); discriminate].
+  unfold int_sum_res in A. destruct (int_sum_safe zs); [discriminate|].
+  destruct (i64_ok (zsum zs)) eqn:Ok; [discriminate|].
+  rewrite <- NN in Z. apply (fold_sum_int_err vs zs st0 Z in64_0).
+  cbn [st0 st_sum]. intro H. assert (i64_ok (zsum zs) = true) by (apply i64_ok_iff; unfold in64 in H; lia). congruence.
 Qed.
